@@ -23,7 +23,7 @@ import (
 
 // C17 — a read-only mount shows exactly the bundle (E2: exhaustive observation battery per tree, both mount modes).
 
-var c17paths = []string{"a", "d/b", "d/e/c", "d/e/f", "g/h", "d/i"}
+var c17paths = []string{"a", "d/b", "d/e/c", "d/e/f", "g/h", "d/i", "d/a-much-longer-file-name"} // names of different lengths: directory entries of different sizes
 
 type dirent struct {
 	Inode  fuseops.InodeID
@@ -280,10 +280,10 @@ func direntSize(name string) int {
 func c17readDir(rep *lib.Report, fs fuseutil.FileSystem, ino fuseops.InodeID, names []string, childIno map[string]fuseops.InodeID, path string, viol func(string, string), rp interface{}) {
 	ctx := context.Background()
 	total := 0
-	minSz := 1 << 30
+	minSz := 0 // the smallest buffer a caller may use: the largest single entry must fit
 	for _, nm := range names {
 		total += direntSize(nm)
-		if direntSize(nm) < minSz {
+		if direntSize(nm) > minSz {
 			minSz = direntSize(nm)
 		}
 	}
